@@ -168,6 +168,18 @@ fn check_batch(out: &mut Out, v: Version, tree: &MerkleTree, leaves: &[Vec<u8>],
                 }
             }
         }
+        // leaf/interior-node confusion: the concatenation of two sibling nodes, presented as a
+        // "leaf" one level up with the path minus its first element, must not verify
+        if levels > 0 {
+            let lh = tree.root_from_paths(0, &leaves[i], &[]);
+            let sib = &p[..w];
+            let forged: Vec<u8> = if i % 2 == 0 { [lh.as_slice(), sib].concat() } else { [sib, lh.as_slice()].concat() };
+            out.obs("binding_probes", 1);
+            out.obs("forged_interior_leaf_probes", 1);
+            if tree.root_from_paths(i >> 1, &forged, &p[w..]) == b.root {
+                out.violation(&format!("C04 binding interior-node-accepted-as-leaf version={}", vname(v)), &format!("n={} position {}: the pair of sibling nodes, given as a leaf at index {} with the shortened path, recomputes the root", n, i, i >> 1), replay_of(v, history, "interior-as-leaf"));
+            }
+        }
         // one element appended (width: that of this profile's nodes; for n = 1 infer from root)
         let aw = w;
         for filler in [vec![0u8; aw], rng.bytes(aw)] {
